@@ -19,6 +19,8 @@
      interp_move <tag> <node> <x y z> MESH real ref_metric_interpolate_node on a grid whose background is cached as the CLI does
                                      (ref_grid_cache_background; vertex metrics stored with ref_node_metric_set)
      interp_between <tag> <n0> <n1> <t> MESH  (tag: a word for the oracle, ignored here) new vertex by ref_node_interpolate_edge, then real ref_metric_interpolate_between
+     interp_field <tag> <node> <x y z> MESH  same set-up, ref_interp_locate_node, then the real whole-field transfer
+                                     ref_metric_interpolate (the parallel path, run on one rank) -> `interpfdump ...`
                                      -> `interpdump np d0 d1 d2 d3 <bary4> <4 x donor log6> <m6> <log6> <xyz3>` | `interpskip <why>`
 
    refine prints diagnostics on stdout: the protocol goes to a dup of the original descriptor. */
@@ -166,7 +168,7 @@ static REF_STATUS cache_background(MESH *m) {
   return REF_SUCCESS;
 }
 
-static void dump_interp(MESH *m, REF_INT node) {
+static void dump_interp(MESH *m, REF_INT node, const char *word) {
   REF_INTERP ref_interp = ref_grid_interp(m->grid);
   REF_GRID from_grid = ref_interp_from_grid(ref_interp);
   REF_CELL from_cell = m->twod ? ref_grid_tri(from_grid) : ref_grid_tet(from_grid);
@@ -186,7 +188,7 @@ static void dump_interp(MESH *m, REF_INT node) {
     fputs("interpskip donor-cell-invalid\n", out);
     return;
   }
-  fprintf(out, "interpdump %d", np);
+  fprintf(out, "%s %d", word, np);
   for (i = 0; i < 4; i++) fprintf(out, " %d", i < np ? nodes[i] : -1);
   for (i = 0; i < 4; i++) pf(ref_interp_bary(ref_interp, i, node));
   for (i = 0; i < 4; i++) {
@@ -339,7 +341,28 @@ int main(int argc, char *argv[]) {
         if (REF_SUCCESS != s)
           fprintf(out, "interpskip interpolate-%s\n", h_status(s));
         else
-          dump_interp(&m, node);
+          dump_interp(&m, node, "interpdump");
+      }
+      free_mesh(&m);
+    } else if (0 == strcmp(op, "interp_field")) {
+      /* move one vertex, relocate it (ref_interp_locate_node), then the REAL whole-field transfer ref_metric_interpolate */
+      REF_INT node;
+      REF_STATUS s;
+      int i;
+      if (h_nw < 7 || !is_nat(h_w[2]) || !all_hex(3, 6) || !build_mesh(6, &m)) { fputs("bad-op\n", out); continue; }
+      node = (REF_INT)h_i(h_w[2]);
+      if (node >= m.nn) { fputs("bad-op\n", out); free_mesh(&m); continue; }
+      s = cache_background(&m);
+      if (REF_SUCCESS != s) {
+        fprintf(out, "interpskip background-%s\n", h_status(s));
+      } else {
+        for (i = 0; i < 3; i++) ref_node_xyz(ref_grid_node(m.grid), i, node) = h_f(h_w[3 + i]);
+        s = ref_interp_locate_node(ref_grid_interp(m.grid), node);
+        if (REF_SUCCESS == s) s = ref_metric_interpolate(ref_grid_interp(m.grid));
+        if (REF_SUCCESS != s)
+          fprintf(out, "interpskip interpolate-%s\n", h_status(s));
+        else
+          dump_interp(&m, node, "interpfdump");
       }
       free_mesh(&m);
     } else if (0 == strcmp(op, "interp_between")) {
@@ -364,7 +387,7 @@ int main(int argc, char *argv[]) {
         if (REF_SUCCESS != s)
           fprintf(out, "interpskip interpolate-%s\n", h_status(s));
         else
-          dump_interp(&m, new_node);
+          dump_interp(&m, new_node, "interpdump");
       }
       free_mesh(&m);
     } else {
